@@ -525,5 +525,35 @@ m('droprowrange-nil-upper-bound','C17',BT,
 		}
 		tbl.rows.AscendRange(prefixBytes, noEnd, func(r *btpb.Row) bool {
 			if bytes.HasPrefix(r.Key, prefixBytes) {''','R43/(*server).DropRowRange','a nil upper bound: unbounded in leveldb, nothing in btree')
+# ---- R55/R57/R58 anchors
+LDB='bigtable/bttest/store_leveldb.go'
+m('clear-reopens-without-wipe','C17',LDB,
+  '''	rows.db = rows.newFunc(true)''','''	rows.db = rows.newFunc(false)''','R55/a/(*leveldbRows).Clear/opens-with-nuke','DropRowRange(all) leaves the rows in place on the disk engine')
+m('validtimestamp-granularity-conditional','C01',BT,
+  '''	// Assume millisecond granularity is required.
+	return ts%1000 == 0''','''	if t.def.Granularity == btapb.Table_MILLIS {
+		return ts%1000 == 0
+	}
+	return true''','R57/validTimestamp','sub-millisecond timestamps accepted for tables without explicit granularity')
+m('isempty-looks-at-columns','C12',BT,
+  '''			if len(cs.Cells) > 0 {
+				return false
+			}''','''			if cs != nil {
+				return false
+			}''','R58/a/isEmpty-looks-at-cells','a predicate that strips every cell still counts as matched')
+m('listtables-bare-parent-prefix','C14',BT,
+  '''	prefix := req.Parent + "/tables/"
+''','''	prefix := req.Parent
+''','R58/b/ListTables','tables of every parent whose name starts with the requested one are listed')
+m('resume-offset-beyond-received-unchecked','C20',GCS,
+  '''	if len(u.data) < int(byteRange.lo) {
+		g.gapiError(w, http.StatusBadRequest, "missing content")
+		return
+	}
+''','','R13/(*GcsEmu).handleGcsNewObjectResume/byteRange.lo','a chunk whose offset lies beyond the received bytes panics with slice bounds out of range')
+m('mergeranges-merge-with-previous-input','C03',BT,
+  '''		merged, didMerge := merge(srs[last], srs[i])''','''		merged, didMerge := merge(srs[i-1], srs[i])''','R59/a/mergeSimpleRanges','a range swallowed by a wider one becomes the comparison base')
+m('gc-changed-flag-overwritten','C16',BT,
+  '''						changed = changed || n != len(col.Cells)''','''						changed = n != len(col.Cells)''','R59/c/(*table).gc','only the last column decides whether the row is written back')
 json.dump(M, open('/verif/mutants.json','w'), indent=1)
 print(len(M),'mutants')
